@@ -462,7 +462,7 @@ pub fn judge_c11(game: &Game, solver_bound: u32, acc: &mut Acc, runno: u64, z: &
         Some(x) => x,
         None => return,
     };
-    let depth = 3;
+    let depth: u32 = std::env::var("VERIF_C11_DEPTH").ok().and_then(|s| s.parse().ok()).unwrap_or(if solver_bound >= 4 { 5 } else { 3 });
     let refr = sb::run_search(&b, &table, u64::MAX, Some(depth + 1), 2_000_000);
     if refr.panicked.is_some() || refr.sends.len() != refr.lines.len() {
         return;
